@@ -189,7 +189,10 @@ func (e *Engine) smtText(o *Obligation, wantModel bool) string {
 	}
 	var gs []string
 	for g := range e.d.axioms {
-		if g == "core" || o.Groups[g] || (g == "bytes_assoc" && o.Groups["bytes"] && !o.Groups["noassoc"]) {
+		if g == "bytes" && o.Groups["nobytes"] {
+			continue // lemma about list structure only: bcat stays uninterpreted
+		}
+		if g == "core" || o.Groups[g] || (g == "bytes_assoc" && o.Groups["bytes"] && !o.Groups["noassoc"] && !o.Groups["nobytes"]) {
 			gs = append(gs, g)
 		}
 	}
